@@ -40,6 +40,7 @@ type c05member struct {
 	ackPos     map[int]uint64 // highest position flagged by an Ack
 	nondocN    map[int]int    // journal number of the last flagging non-document event
 	inAck      map[int]bool
+	pendTrack  map[int]*journal.Ev // position reported inside an Ack() that has not returned yet
 	sid        map[int]string
 	absorbSys  map[int]map[uint64]bool // seqnos of emitted non-document events per vb
 	absorbInt  map[int]map[uint64]bool // internal-key document events
@@ -140,7 +141,7 @@ func checkC05(run *Run, res *Result) {
 	ms := map[int]*c05member{}
 	get := func(m int) *c05member {
 		if ms[m] == nil {
-			ms[m] = &c05member{pos: map[int]uint64{}, need: map[int]bool{}, needSince: map[int]int{}, ackSince: map[int]bool{}, needPos: map[int]uint64{}, ackPos: map[int]uint64{}, nondocN: map[int]int{}, inAck: map[int]bool{}, sid: map[int]string{},
+			ms[m] = &c05member{pos: map[int]uint64{}, need: map[int]bool{}, needSince: map[int]int{}, ackSince: map[int]bool{}, needPos: map[int]uint64{}, ackPos: map[int]uint64{}, nondocN: map[int]int{}, inAck: map[int]bool{}, pendTrack: map[int]*journal.Ev{}, sid: map[int]string{},
 				absorbSys: map[int]map[uint64]bool{}, absorbInt: map[int]map[uint64]bool{}, explicit: map[string]*c05episode{}}
 		}
 		return ms[m]
@@ -197,6 +198,39 @@ func checkC05(run *Run, res *Result) {
 			}
 		}
 	}
+	// settle records a reported position as settled at event n (the report itself for absorbed stream events, the
+	// return of Ack() for acknowledgements).
+	settlePos := func(mm *c05member, e *journal.Ev, n int) {
+		viaAck := mm.inAck[e.Vb]
+		dirties := false
+		switch {
+		case viaAck:
+			dirties = true
+		case mm.absorbSys[e.Vb][e.Off.Seq]:
+			dirties = true
+			mm.lastActN = n
+			res.probe("advanced-by-non-document-event")
+		}
+		if e.Off.Seq > mm.pos[e.Vb] {
+			mm.pos[e.Vb] = e.Off.Seq
+		}
+		if dirties {
+			if !mm.need[e.Vb] {
+				mm.ackSince[e.Vb] = false
+			}
+			mm.need[e.Vb] = true
+			mm.needSince[e.Vb] = n
+			mm.needPos[e.Vb] = mm.pos[e.Vb]
+			if viaAck {
+				mm.ackSince[e.Vb] = true
+				if mm.pos[e.Vb] > mm.ackPos[e.Vb] {
+					mm.ackPos[e.Vb] = mm.pos[e.Vb]
+				}
+			} else {
+				mm.nondocN[e.Vb] = n
+			}
+		}
+	}
 	for i := range run.Evs {
 		e := &run.Evs[i]
 		switch e.K {
@@ -245,12 +279,19 @@ func checkC05(run *Run, res *Result) {
 			mm := get(e.M)
 			mm.inAck[e.Vb] = true
 			mm.lastActN = e.N
-			mm.lastAckN = e.N
 			if mm.ep != nil {
 				res.probe("ack-during-store-call")
 			}
 		case journal.KAckEnd:
-			get(e.M).inAck[e.Vb] = false
+			mm := get(e.M)
+			if t := mm.pendTrack[e.Vb]; t != nil {
+				// the position the acknowledgement reported is settled once Ack() has returned
+				delete(mm.pendTrack, e.Vb)
+				settlePos(mm, t, e.N)
+			}
+			// the acknowledgement takes effect (position recorded, marked, flag raised) by the time Ack() returns
+			mm.lastActN, mm.lastAckN = e.N, e.N
+			mm.inAck[e.Vb] = false
 		case journal.KTrack:
 			if e.Off == nil {
 				continue
@@ -259,34 +300,11 @@ func checkC05(run *Run, res *Result) {
 			if mm.dead {
 				continue
 			}
-			dirties := false
-			switch {
-			case mm.inAck[e.Vb]:
-				dirties = true
-			case mm.absorbSys[e.Vb][e.Off.Seq]:
-				dirties = true
-				mm.lastActN = e.N
-				res.probe("advanced-by-non-document-event")
+			if mm.inAck[e.Vb] {
+				mm.pendTrack[e.Vb] = e
+				continue
 			}
-			if e.Off.Seq > mm.pos[e.Vb] {
-				mm.pos[e.Vb] = e.Off.Seq
-			}
-			if dirties {
-				if !mm.need[e.Vb] {
-					mm.ackSince[e.Vb] = false
-				}
-				mm.need[e.Vb] = true
-				mm.needSince[e.Vb] = e.N
-				mm.needPos[e.Vb] = mm.pos[e.Vb]
-				if mm.inAck[e.Vb] {
-					mm.ackSince[e.Vb] = true
-					if mm.pos[e.Vb] > mm.ackPos[e.Vb] {
-						mm.ackPos[e.Vb] = mm.pos[e.Vb]
-					}
-				} else {
-					mm.nondocN[e.Vb] = e.N
-				}
-			}
+			settlePos(mm, e, e.N)
 		case journal.KCall:
 			mm := get(e.M)
 			switch e.S {
